@@ -35,6 +35,7 @@ QUERIES = [
     'flag=true', 'flag=false', 'flag=1', 'flag=0', 'flag=yes', 'flag=no', 'flag=T', 'flag=', 'flag', 'flag=maybe',
     'q=%26%3D', 'q=a%26b=c', 'a=1&b=&id=42&flag=true', 'a=%00', 'a=null', 'A=1&a=2', 'a=1&b=2&a=3', 'a=%201',
     'a=1#frag', 'a=%25', 'a=%2525', '?a=1', 'a=?', 'a=/', 'a[]=1&a[]=2', 'a=' + 'x' * 300,
+    'next=/other?page=2', 'a=1&b=?x', 'q=a?b?c', '??', 'a=%3F&b=?', 'a=1?', 'a=b=c&d=e?f=g', 'a=:/@!$()*;', 'id=7&id=8&a=1', 'a=1,2&b=3,4',
 ]
 RAW8_QUERIES = ['a=\xc3\xa9', 'a=\xff', 'a=1&b=\xe2\x82\xac', '\xc3\xa9=1', 'a=\xc3']
 
@@ -388,6 +389,16 @@ def families(tier, ua):
     styles = [{'explicit_host': True}, {'explicit_port': True}, {'explicit_remote': True}, {'empty_root_arg': True},
               {'empty_query_arg': True}, {'empty_body_arg': True}, {'content_type_param': True}, {'cookies_param': True},
               {'headers_as_dict': True}, {'explicit_cl': True}, {'content_type_conflict': True}, {'json_param': True}]
+    for q in QUERIES:
+        for stl in ({'inline_query': True}, {'inline_query': True, 'params_empty': True}, {'inline_query': True, 'inline_empty': True},
+                    {'params_dict': True}, {'params_empty': True}):
+            if stl.get('params_dict') and not q.replace('&', '').replace('=', '').replace(',', '').isalnum():
+                continue
+            for tgt in (('/items', '/items/a%3Fb') if '?' in q or not q else ('/items',)):
+                req = new_request(target=tgt, query=q)
+                req['script'] = default_script()
+                finalize(req)
+                yield 'E6.sim-query-style', with_sim(req, ua, stl)
     for stl in styles:
         for m in ('GET', 'POST', 'OPTIONS'):
             for body in ('', '{"a": 1}'):
@@ -443,7 +454,7 @@ def rand_query(rng):
     for _ in range(rng.randint(1, 5)):
         k = rng.choice(['a', 'b', 'id', 'flag', 'q', 'A', '', 'a%20b', '%C3%A9'])
         v = rng.choice(['1', '', 'x%20y', 'x+y', '%C3%A9', '%FF', '1,2', ',', 'true', 'false', '42', '-3', 'null', '%', '%zz',
-                        'a=b', pct(rng, rng.choice(['café', 'a&b=c', ' ', ',']))])
+                        'a=b', '/o?p=2', '?', 'x?', pct(rng, rng.choice(['café', 'a&b=c', ' ', ',']))])
         parts.append(rng.choice([k + '=' + v, k + '=' + v, k, k + '=']))
     return rng.choice(['&', '&', '&', '&&', ';']).join(parts)
 
@@ -548,7 +559,8 @@ def rand_request(rng, ua):
     if want_sim:
         style = {}
         for k in ('explicit_host', 'explicit_port', 'explicit_remote', 'empty_root_arg', 'empty_query_arg', 'empty_body_arg',
-                  'content_type_param', 'cookies_param', 'headers_as_dict', 'explicit_cl', 'content_type_conflict', 'json_param'):
+                  'content_type_param', 'cookies_param', 'headers_as_dict', 'explicit_cl', 'content_type_conflict', 'json_param',
+                  'inline_query', 'inline_query', 'inline_empty', 'params_empty', 'params_dict'):
             if rng.random() < 0.12:
                 style[k] = True
         with_sim(req, ua, style)
